@@ -5,7 +5,7 @@ import ast
 import os
 
 from ..cfg import CFG
-from ..core import (AnalysisError, DefRef, NotConst, Ref, call_name, calls_in, dotted, enclosing_conditions, func_params, get_kw, norm,
+from ..core import (AnalysisError, DefRef, NotConst, Ref, call_name, calls_in, dotted, enclosing_conditions, func_params, get_kw, norm, qualname_of,
                     walk_no_nested)
 
 PROPERTY = "C11"
@@ -363,6 +363,48 @@ def run(ctx):
         ctx.check(ok, "R11.5", f"ext_to_adapter:{ext}", f"{ext} -> {ad}: module or {ad.title()}Reader/{ad.title()}Writer missing", radapter, f"{ext} -> {modname}")
     ctx.check(bool(default) and len(default[0].args) == 2 and _fold(prog, base, default[0].args[1]) == "stream", "R11.5", "ext_to_adapter:default", "unknown extensions do not default to the stream adapter",
               radapter, "default adapter is 'stream'")
+
+    # ------------------------------------------------------------------ R11.7 the source object is looked up when it is needed
+    ctx.rule("R11.7", "a memoised function (lru_cache / cache) does not hand out process state - sys.stdin / sys.stdout / sys.stderr, os.environ, a freshly opened file: "
+                      "the second reader of standard input in one process would sniff codec and container from the first one's exhausted object")
+    n_memo5 = 0
+    for mname5, mod5 in sorted(prog.modules.items()):
+        for fn5 in [n for n in ast.walk(mod5.tree) if isinstance(n, (ast.FunctionDef, ast.AsyncFunctionDef))]:
+            decos5 = [norm(d.func) if isinstance(d, ast.Call) else norm(d) for d in fn5.decorator_list]
+            if not any(d.split(".")[-1] in ("lru_cache", "cache") for d in decos5):
+                continue
+            n_memo5 += 1
+            state = [n for n in ast.walk(fn5) if (isinstance(n, ast.Attribute) and dotted(n) and dotted(n).split(".")[:2] in (["sys", "stdin"], ["sys", "stdout"], ["sys", "stderr"], ["os", "environ"]))
+                     or (isinstance(n, ast.Call) and call_name(n) in ("open", "io.open", "os.fdopen"))]
+            ctx.check(not state, "R11.7", f"{qualname_of(fn5).replace('flow.record.', '')}:memoised", f"{fn5.name}() is memoised and returns / reads process state (`{norm(state[0])[:40] if state else ''}`): "
+                      "every later caller gets the object of the first call, whatever standard input is by then", state[0] if state else fn5, "memoised functions are pure",
+                      key=f"R11.7:{qualname_of(fn5).replace('flow.record.', '')}:memoised-process-state")
+    ctx.floor("R11.7", "memoised functions in the package", n_memo5, 5)
+
+    # ------------------------------------------------------------------ R11.6 readers do not rewind what may not be seekable
+    ctx.rule("R11.6", "a reader rewinds (seek) the object it was given only under a seekable() test: decompressing readers (zstd) and standard input cannot seek, and a "
+                      "reader that reads a few bytes to look at them and seeks back fails for exactly those sources")
+    from .. import logic  # noqa: F811
+    n_seek = 0
+    for mname6, mod6 in sorted(prog.modules.items()):
+        if not (mname6.startswith("flow.record.adapter") or mname6 in ("flow.record.stream", "flow.record.base")):
+            continue
+        for fn6 in [n for n in ast.walk(mod6.tree) if isinstance(n, (ast.FunctionDef, ast.AsyncFunctionDef))]:
+            seeks = [c for c in calls_in(fn6) if isinstance(c.func, ast.Attribute) and c.func.attr == "seek"]
+            if not seeks:
+                continue
+            cfg6 = CFG(fn6)
+            for c6 in seeks:
+                n_seek += 1
+                recv = norm(c6.func.value)
+                prem6 = logic.facts_as_premises(cfg6.facts_at((cfg6.header_node_for_expr(c6) or cfg6.node_of(c6)).id))
+                # (a read in between does not change whether the object can seek: the enclosing tests count as well as the path facts)
+                encl6 = [(t, p) for t, p in enclosing_conditions(c6, fn6)]
+                ctx.check(logic.implies(prem6, logic.parse(f"{recv}.seekable()")) or (f"{recv}.seekable()", True) in encl6, "R11.6", f"{qualname_of(fn6).replace('flow.record.', '')}:seek:{recv}",
+                          f"`{norm(c6)}` is not under `{recv}.seekable()`: a decompressing or piped source raises here", c6, f"if {recv}.seekable(): ... {recv}.seek(...)",
+                          key=f"R11.6:{qualname_of(fn6).replace('flow.record.', '')}:unguarded-seek")
+    ctx.floor("R11.6", "seek() calls on the read path", n_seek, 1)
+
 
 
 def _fold(prog, module, e):
